@@ -305,6 +305,19 @@ def r4(ctx: Ctx, m):
                  f' (`{unparse(tv)}` can be another value, e.g. None): the starved side then blocks'
                  ' for ever instead of raising TimeoutError', node=c)
         continue
+      if n.kind != 'cond' and isinstance(n.ast, ast.Assign) and len(n.ast.targets) == 1 and isinstance(n.ast.targets[0], ast.Name):
+        # `woken = <condition>.wait(timeout=...)` followed by a test of `woken`: the test node stands for the wait
+        flag = n.ast.targets[0].id
+        cur, hops = n, 0
+        while cur is not None and hops < 4:
+          nxt = [s_ for s_, lab_ in cur.succ if lab_ in ('next', 'true', 'false')]
+          cur = nxt[0] if len(nxt) >= 1 else None
+          hops += 1
+          if cur is not None and cur.kind == 'cond':
+            t_ = cur.ast.operand if isinstance(cur.ast, ast.UnaryOp) and isinstance(cur.ast.op, ast.Not) else cur.ast
+            if isinstance(t_, ast.Name) and t_.id == flag:
+              n = cur
+            break
       if n.kind != 'cond':
         ctx.fail(rule, fi, c, 'the result of wait(timeout=...) is ignored: a'
                  ' timeout is indistinguishable from a wake-up and never raises')
@@ -966,6 +979,9 @@ from mlmverif.selfcheck import B, OK  # noqa: E402
 
 _F = 'utils/iter_utils.py'
 VARIANTS = [
+    OK('put-waits-with-a-named-timeout', 'utils/iter_utils.py',
+       "          if self._enqueue_lock.wait(timeout=self.timeout):\n            continue\n          raise TimeoutError(f'Enqueue timeout",
+       "          woken = self._enqueue_lock.wait(timeout=self.timeout)\n          if woken:\n            continue\n          raise TimeoutError(f'Enqueue timeout"),
     B('put-waits-for-a-free-slot-only', 'utils/iter_utils.py',
       "          if self._enqueue_lock.wait(timeout=self.timeout):\n            continue\n          raise TimeoutError(f'Enqueue timeout",
       "          if self._enqueue_lock.wait_for(lambda: not self._queue.full(), timeout=self.timeout):\n            continue\n          raise TimeoutError(f'Enqueue timeout", 'R-C05-16'),
